@@ -675,12 +675,10 @@ def oracle_image(c, image, pki, dek, impl_fuses):
     if c["dcd"] is not None and c["xmcd"] is not None:
         if image[64:64 + len(c["dcd"])] != c["dcd"] or image[64:64 + len(c["xmcd"])] != c["xmcd"]:
             yield P("layout:dcd-xmcd-collide", "DCD and XMCD are both placed at IVT+0x40; one overwrites the other without an error")
-        return
     if c["dcd"] is not None and 64 + len(c["dcd"]) > app_off:
         if image[64:64 + len(c["dcd"])] != c["dcd"] or image[app_off:app_off + len(app_padded)] != (app_padded if not enc else image[app_off:app_off + len(app_padded)]):
             yield P("layout:dcd-overlaps-app", f"DCD ({len(c['dcd'])} bytes at IVT+0x40) reaches the application at {app_off:#x}; "
                                                "the application overwrites it without an error")
-        return
     if len(image) < 64 or image[0] != 0xD1 or struct.unpack(">H", image[1:3])[0] != 32 or (image[3] >> 4) != 4:
         yield P("layout:ivt-header", f"IVT header {image[:4].hex()}")
         return
@@ -878,21 +876,24 @@ def oracle_parse(c, image, pr):
     P = lambda s, m: (s, m)
     auth, enc = bool(c["flags"] & 8), c["flags"] == 12
     app_off = c["ils"] - c["ivt_off"]
-    both = c["dcd"] is not None and c["xmcd"] is not None
-    if both or (c["dcd"] is not None and 64 + len(c["dcd"]) > app_off):
-        return          # reported by the layout oracle as a collision
     if pr[0] != "ok":
-        if enc:
-            yield P("parse:encrypted-image", f"an encrypted image cannot be parsed back ({pr[1:]}): the application offset is searched "
-                                             "by looking for a reset vector in the ciphertext")
-        elif c["xmcd"] is not None and c["xmcd"][2] & 0xF:
-            yield P("parse:xmcd-instance-lost", f"image built from an XMCD with instance {c['xmcd'][2] & 0xF} cannot be parsed ({pr[1:]})")
-        elif app_off not in KNOWN_APP_OFFSETS:
-            yield P("parse:app-offset-not-in-list", f"image with application offset {app_off:#x} cannot be parsed ({pr[1:]})")
-        elif c["why"] == "application without a usable reset vector":
-            yield P("parse:no-reset-vector", f"image whose application has no Thumb reset vector in range cannot be parsed ({pr[1:]})")
+        # The open findings F6..F8 excuse exactly one outcome: AppHabSegment.parse raising SPSDKParsingError
+        # "Application offset could not be found", and only when the stated cause is present in THIS image. Any other failure
+        # (other exception, other message, crash, hang) gets its own signature and is a violation.
+        not_found = pr[1] == 1 and len(pr) >= 4 and pr[2] == "SPSDKParsingError" and "Application offset could not be found" in pr[3]
+        entry = u32(image, 4)
+        rv = u32(image, app_off + 4) if len(image) >= app_off + 8 else 0
+        rv_usable = rv != 0 and rv % 2 == 1 and entry - 0x400 <= rv < entry + len(image)
+        if not_found and enc:
+            yield P("parse:encrypted-image:app-offset-not-found", "an encrypted image cannot be parsed back: the application offset is "
+                                                                  "searched by looking for a reset vector in the ciphertext")
+        elif not_found and app_off not in KNOWN_APP_OFFSETS:
+            yield P("parse:app-offset-not-in-list:app-offset-not-found", f"image with application offset {app_off:#x} cannot be parsed")
+        elif not_found and not rv_usable:
+            yield P("parse:no-reset-vector:app-offset-not-found",
+                    f"image whose application has no Thumb reset vector in range (word {rv:#x}, entry {entry:#x}) cannot be parsed")
         else:
-            yield P("parse:fails", f"HabContainer.parse(export) fails: {pr[1:]}")
+            yield P(f"parse:fails:kind{pr[1]}:{pr[2] if len(pr) > 2 else ''}", f"HabContainer.parse(export) fails: {pr[1:]}")
         return
     p = pr[1]
     if (p["flags"], p["ivt_offset"], p["start"]) != (c["flags"], c["ivt_off"], c["start"]):
@@ -1069,7 +1070,7 @@ def _run(rep, rng, tier):
                 if fn == 1:
                     b = r["build"]
                     if b[0] != "ok":
-                        if not (mv[0] == "e" and (mv[1] == b[1] or mv[1] == 99)):
+                        if not (mv[0] == "e" and mv[1] == b[1]):
                             dis = f"build: impl error kind {b[1:]} model {str(mv)[:80]}"
                     elif mv[0] != "l":
                         dis = f"build: impl ok, model {mv}"
